@@ -173,12 +173,20 @@ def build_events(t, g, on, P, cfg):
             if cubic:
                 e = Ev("x", k, t[k] if lo is None else lo, t[k + 1], req, tag, partner, alt_ok,
                        tref=None, pref=P[k], prad=chord_len(k) + overshoot(k))
+                twin = r > 0
             else:
                 tr = t[k] + sstar * dt
                 pr = (P[k][0] + sstar * (P[k + 1][0] - P[k][0]), P[k][1] + sstar * (P[k + 1][1] - P[k][1]))
                 e = Ev("x", k, t[k], t[k + 1], req, tag, partner, alt_ok, tref=tr, pref=pr)
+                xb = sstar * (r + 1)
+                twin = r > 0 and abs(xb - round(xb)) <= 1e-9 and 0 < round(xb) < r + 1
             ev.append(e)
             info.add("cross-" + tag)
+            if twin and cfg.get("twin"):
+                # root on a sub-interval boundary is seen from both sides; the documented dedup merges the
+                # two candidates only if its time tolerance exceeds the rounding of the hit time
+                ev.append(Ev("x", k, e.lo, e.hi, False, "boundary-twin", None, False, tref=e.tref, pref=e.pref, prad=e.prad))
+                info.add("boundary-twin")
 
         wild = False
         if cubic and r > 0:
@@ -295,6 +303,13 @@ def match(hits_t, hits_p, ev, cfg):
             return 2
         if j >= 1 and close_event_event(ev[j - 1], e, dt_tol, dp_tol, st, sp):
             return 2
+        if e.partner is not None:
+            # the on-surface sample was accepted (so this segment hosts no crossing) and then deduplicated itself
+            pe = ev[e.partner]
+            if a >= 1 and close_hit_event(hits_t[a - 1], hits_p[a - 1], pe, dt_tol, dp_tol, st, sp):
+                return 2
+            if e.partner >= 1 and close_event_event(ev[e.partner - 1], pe, dt_tol, dp_tol, st, sp):
+                return 2
         return 0
 
     memo = {}
